@@ -21,6 +21,7 @@ import (
 	"strings"
 	"sync"
 	"sync/atomic"
+	"syscall"
 	"time"
 
 	"github.com/openebs/jiva/replica"
@@ -46,6 +47,13 @@ type Op struct {
 	R    bool   `json:"r,omitempty"`
 	C    int64  `json:"c,omitempty"`
 	Flow string `json:"flow,omitempty"` // generator bookkeeping only
+	// SyncFile: the healthy replica's version of snapshot Name
+	Parent  string `json:"parent,omitempty"`
+	Removed bool   `json:"removed,omitempty"`
+	Blocks  []int  `json:"blocks,omitempty"` // per block: 0 = hole, else the stamp of all its sectors
+	// ReplaceDisk
+	Target string `json:"target,omitempty"`
+	Source string `json:"source,omitempty"`
 }
 
 type Scenario struct {
@@ -112,6 +120,59 @@ type drv struct {
 	snapCtr int
 	curOp Op
 	gone  []string
+	lmGate chan struct{}
+	lmDone chan error
+}
+
+// syncFile writes the image and the metadata of one snapshot the way the sync agent's
+// receiver does and returns the per-block projection of what was written.
+func (d *drv) syncFile(op Op) ([][]int, error) {
+	nb := d.size()
+	path := filepath.Join(d.dir, rawfs.Real(op.Name))
+	f, err := os.OpenFile(path, os.O_RDWR|os.O_CREATE, 0666)
+	if err != nil {
+		return nil, err
+	}
+	defer f.Close()
+	if err := f.Truncate(nb * rawfs.BlockSize); err != nil {
+		return nil, err
+	}
+	data := make([][]int, nb)
+	for b := int64(0); b < nb; b++ {
+		v := 0
+		if int(b) < len(op.Blocks) {
+			v = op.Blocks[b]
+		}
+		if v == 0 {
+			data[b] = []int{}
+			if err := syscall.Fallocate(int(f.Fd()), sparse.FALLOC_FL_KEEP_SIZE|sparse.FALLOC_FL_PUNCH_HOLE,
+				b*rawfs.BlockSize, rawfs.BlockSize); err != nil {
+				return nil, err
+			}
+			continue
+		}
+		if _, err := f.WriteAt(fill(rawfs.SPB, v), b*rawfs.BlockSize); err != nil {
+			return nil, err
+		}
+		data[b] = make([]int, rawfs.SPB)
+		for i := range data[b] {
+			data[b][i] = v
+		}
+	}
+	if err := f.Sync(); err != nil {
+		return nil, err
+	}
+	meta := map[string]interface{}{"Name": rawfs.Real(op.Name), "Parent": rawfs.Real(op.Parent), "Removed": op.Removed,
+		"UserCreated": op.User, "Created": now(), "RevisionCounter": 0}
+	if op.Parent == "" {
+		meta["Parent"] = ""
+	}
+	b, _ := json.Marshal(meta)
+	tmp := path + ".meta.tmp"
+	if err := ioutil.WriteFile(tmp, append(b, '\n'), 0666); err != nil {
+		return nil, err
+	}
+	return data, os.Rename(tmp, path+".meta")
 }
 
 // quiesce waits until every queued punch has been executed: a sentinel is
@@ -428,6 +489,83 @@ func (d *drv) exec1(op Op) {
 			err = last
 		}
 		d.emitX("Open", nil, err, nil, nil, false, map[string]interface{}{"oks": oks})
+	case "Unmap":
+		_, err := s.Unmap(op.S0*rawfs.SectorSize, op.N*rawfs.SectorSize)
+		d.emit("Unmap", map[string]interface{}{"s0": op.S0, "n": op.N}, err, nil, nil)
+	case "SyncFile":
+		// what the ssync receiver does for one snapshot of the healthy replica: image in
+		// place (create / truncate to size, data and holes), metadata through tmp + rename
+		data, err := d.syncFile(op)
+		d.emit("SyncFile", map[string]interface{}{"name": op.Name, "parent": op.Parent, "user": op.User,
+			"removed": op.Removed, "data": data}, err, nil, nil)
+		if err != nil {
+			fmt.Fprintln(os.Stderr, "HARNESS-ERROR: SyncFile:", err)
+			os.Exit(2)
+		}
+	case "UpdateLUNMap":
+		err := s.UpdateLUNMap()
+		d.emit("UpdateLUNMap", nil, err, nil, nil)
+	case "LunMapScan":
+		// UpdateLUNMap up to the gate between its two locked sections
+		if d.lmDone != nil {
+			fmt.Fprintln(os.Stderr, "HARNESS-ERROR: LunMapScan while one is pending")
+			os.Exit(2)
+		}
+		d.lmGate = make(chan struct{})
+		reached := make(chan struct{})
+		d.lmDone = make(chan error, 1)
+		gate := d.lmGate
+		replica.VerifLunMapGate = func() {
+			replica.VerifLunMapGate = nil
+			close(reached)
+			<-gate
+		}
+		go func(done chan error) { done <- s.UpdateLUNMap() }(d.lmDone)
+		var err error
+		select {
+		case <-reached:
+		case err = <-d.lmDone: // refused before the gate
+			replica.VerifLunMapGate = nil
+			d.lmDone = nil
+			if err == nil {
+				fmt.Fprintln(os.Stderr, "HARNESS-ERROR: UpdateLUNMap returned without passing the gate")
+				os.Exit(2)
+			}
+		}
+		d.emit("LunMapScan", nil, err, nil, nil)
+	case "LunMapMerge":
+		if d.lmDone == nil {
+			fmt.Fprintln(os.Stderr, "HARNESS-ERROR: LunMapMerge without LunMapScan")
+			os.Exit(2)
+		}
+		close(d.lmGate)
+		err := <-d.lmDone
+		d.lmDone = nil
+		d.emit("LunMapMerge", nil, err, nil, nil)
+	case "ReplaceDisk":
+		err := s.ReplaceDisk(rawfs.Real(op.Target), rawfs.Real(op.Source))
+		d.emit("ReplaceDisk", map[string]interface{}{"target": op.Target, "source": op.Source}, err, nil, nil)
+	case "CloseOpenRace":
+		// an attach (open) arrives while a close of the same replica is in progress: the
+		// open may only succeed once the previous instance is completely closed
+		r0 := s.Replica()
+		cdone := make(chan error, 1)
+		go func() { cdone <- s.Close() }()
+		time.Sleep(60 * time.Millisecond)
+		oerr := s.Open()
+		oldLive := false
+		if oerr == nil && r0 != nil && r0.GetReplicaMode() != "CLOSED" {
+			oldLive = true
+		}
+		cerr := <-cdone
+		if oerr != nil && r0 != nil {
+			// the open came first and was refused; the close ran afterwards
+			d.emitX("Open", nil, oerr, nil, nil, false, map[string]interface{}{"race": true})
+			d.emit("Close", nil, cerr, nil, nil)
+		} else {
+			d.emitX("Close", nil, cerr, nil, nil, true, nil)
+			d.emitX("Open", nil, oerr, nil, nil, false, map[string]interface{}{"race": true, "oldlive": oldLive})
+		}
 	case "SetPreload":
 		err := s.SetPreload(op.P)
 		d.emit("SetPreload", map[string]interface{}{"p": op.P}, err, nil, nil)
@@ -536,21 +674,21 @@ func (d *drv) snaps() []string { // chain snapshots, base..latest
 
 // operation classes of the generator and their weights per profile
 var classes = []string{"write", "read", "fullread", "snapshot", "cleaner", "userdelete", "badremove",
-	"revert", "resize", "close", "reload", "mode", "meta", "punch", "unrebuild", "forcedelete"}
+	"revert", "resize", "close", "reload", "mode", "meta", "punch", "unrebuild", "forcedelete", "unmap", "replace"}
 
 var weights = map[string][]int{
 	//             wr  rd  fr  sn  cl  ud  br  rv  rs  cl  rl  mo  me  pu  ur
-	"mixed":      {30, 8, 4, 15, 12, 5, 3, 4, 4, 5, 2, 3, 2, 2, 1, 3},
-	"multiblock": {34, 6, 5, 18, 10, 3, 1, 8, 1, 5, 3, 1, 1, 3, 1, 2},
-	"nopunch":    {30, 8, 4, 15, 12, 5, 3, 4, 4, 5, 2, 3, 2, 0, 1, 3},
-	"cleaner":    {24, 6, 4, 20, 26, 7, 5, 1, 1, 2, 1, 1, 1, 1, 0, 8},
-	"manage":     {14, 4, 3, 18, 10, 8, 8, 10, 6, 6, 4, 4, 4, 1, 0, 12},
-	"resize":     {24, 8, 6, 10, 5, 1, 1, 4, 24, 9, 4, 2, 1, 1, 0, 1},
-	"gate":       {16, 8, 3, 8, 5, 6, 5, 5, 5, 12, 4, 14, 7, 1, 1, 2},
+	"mixed":      {30, 8, 4, 15, 12, 5, 3, 4, 4, 5, 2, 3, 2, 2, 1, 3, 4, 0},
+	"multiblock": {34, 6, 5, 18, 10, 3, 1, 8, 1, 5, 3, 1, 1, 3, 1, 2, 3, 0},
+	"nopunch":    {30, 8, 4, 15, 12, 5, 3, 4, 4, 5, 2, 3, 2, 0, 1, 3, 4, 0},
+	"cleaner":    {24, 6, 4, 20, 26, 7, 5, 1, 1, 2, 1, 1, 1, 1, 0, 8, 2, 0},
+	"manage":     {14, 4, 3, 18, 10, 8, 8, 10, 6, 6, 4, 4, 4, 1, 0, 12, 2, 7},
+	"resize":     {24, 8, 6, 10, 5, 1, 1, 4, 24, 9, 4, 2, 1, 1, 0, 1, 3, 0},
+	"gate":       {16, 8, 3, 8, 5, 6, 5, 5, 5, 12, 4, 14, 7, 1, 1, 2, 4, 2},
 }
 
 // pick returns a value in the historical 0..99 scale used by the switch below
-var thresholds = []int{0, 30, 38, 42, 57, 69, 74, 77, 81, 85, 90, 92, 95, 97, 99, 100}
+var thresholds = []int{0, 30, 38, 42, 57, 69, 74, 77, 81, 85, 90, 92, 95, 97, 99, 100, 101, 102}
 
 func pick(rng *rand.Rand, profile string) int {
 	w, ok := weights[profile]
@@ -586,11 +724,22 @@ func (d *drv) runGenerated(id int, n int, profile string) error {
 		return err
 	}
 	defer d.finish()
+	defer func() {
+		// the generator asks the engine for its chain, size and mode; an engine in a state
+		// it should never be in can trip it up: the recorded prefix is what counts
+		if p := recover(); p != nil {
+			fmt.Fprintln(os.Stderr, "generator stopped in scenario", id, ":", p)
+		}
+	}()
 	steps := 0
 	d.gone = nil
 	do := func(op Op) { d.exec(op); steps++ }
 	if profile == "shapes" {
 		d.runShape(do)
+		return nil
+	}
+	if profile == "rebuild" {
+		d.runRebuild(do)
 		return nil
 	}
 	maybeIO := func() {
@@ -637,6 +786,25 @@ func (d *drv) runGenerated(id int, n int, profile string) error {
 		snaps := d.snaps()
 		k := pick(rng, profile)
 		switch {
+		case k == 101: // unmap: aligned run of blocks, or a ragged sector range
+			ns := d.size() * rawfs.SPB
+			var s0, nn int64
+			if rng.Intn(2) == 0 {
+				b0 := rng.Int63n(d.size())
+				s0, nn = b0*rawfs.SPB, (1+rng.Int63n(d.size()-b0))*rawfs.SPB
+			} else {
+				s0 = rng.Int63n(ns)
+				nn = 1 + rng.Int63n(min64(ns-s0, 20))
+			}
+			do(Op{Ev: "Unmap", S0: s0, N: nn})
+			if rng.Intn(2) == 0 {
+				do(d.genRead(true))
+			}
+		case k == 102: // ReplaceDisk with every kind of target / source
+			all := d.chain()
+			names := append([]string{"s-unknown"}, all...)
+			// (a target that does not exist would become an image without metadata: outside the model)
+			do(Op{Ev: "ReplaceDisk", Target: all[rng.Intn(len(all))], Source: names[rng.Intn(len(names))]})
 		case k < 30 && rng.Intn(10) == 0:
 			do(Op{Ev: "Burst", N: int64(2 + rng.Intn(3))})
 		case k < 30:
@@ -723,8 +891,9 @@ func (d *drv) runGenerated(id int, n int, profile string) error {
 			} else if rng.Intn(2) == 0 {
 				do(Op{Ev: "Revert", Name: "s-unknown"})
 			} else {
-				all := d.chain()
-				do(Op{Ev: "Revert", Name: all[len(all)-1]})
+				if all := d.chain(); len(all) > 0 {
+					do(Op{Ev: "Revert", Name: all[len(all)-1]})
+				}
 			}
 		case k < 85: // resize
 			sz := d.size()
@@ -739,7 +908,11 @@ func (d *drv) runGenerated(id int, n int, profile string) error {
 				}
 			}
 		case k < 90: // close (+ reopen next round)
-			do(Op{Ev: "Close"})
+			if rng.Intn(5) == 0 {
+				do(Op{Ev: "CloseOpenRace"})
+			} else {
+				do(Op{Ev: "Close"})
+			}
 		case k < 92:
 			do(Op{Ev: "SetPreload", P: rng.Intn(2) == 0})
 			do(Op{Ev: "Reload"})
@@ -752,7 +925,17 @@ func (d *drv) runGenerated(id int, n int, profile string) error {
 			case 0:
 				do(Op{Ev: "SetRebuilding", R: rng.Intn(2) == 0})
 			case 1:
-				do(Op{Ev: "SetRev", C: d.s.Replica().GetRevisionCounter() + int64(rng.Intn(3))})
+				cur := d.s.Replica().GetRevisionCounter()
+				switch rng.Intn(4) {
+				case 0: // a value with fewer digits than the current one (promotion to a source that is behind)
+					if cur >= 10 {
+						do(Op{Ev: "SetRev", C: 1 + int64(rng.Intn(9))})
+					} else {
+						do(Op{Ev: "SetRev", C: cur + 100})
+					}
+				default:
+					do(Op{Ev: "SetRev", C: cur + int64(rng.Intn(3))})
+				}
 			default:
 				do(Op{Ev: "Open"})
 			}
@@ -800,6 +983,13 @@ func (d *drv) runShape(do func(Op)) {
 	}
 	do(Op{Ev: "SetCheckpoint", Name: names[len(names)-1-rng.Intn(2)]})
 	do(d.genRead(true))
+	if rng.Intn(2) == 0 {
+		// the cleaner of a restarted replica: chain and flags come from the files
+		do(Op{Ev: "Close"})
+		do(Op{Ev: "SetPreload", P: rng.Intn(3) != 0})
+		do(Op{Ev: "Open"})
+		do(Op{Ev: "SetMode", Mode: "RW"})
+	}
 	for round := 0; round < 4; round++ {
 		r := d.s.Replica()
 		if r == nil {
@@ -818,8 +1008,123 @@ func (d *drv) runShape(do func(Op)) {
 		do(Op{Ev: "Coalesce", Name: victim})
 		do(Op{Ev: "RemoveDisk", Name: victim})
 		do(d.genRead(true))
+		if rng.Intn(2) == 0 {
+			// overwrite everything (or unmap a part): the previous owners lose their blocks
+			// wherever reclamation thinks it may
+			if rng.Intn(4) == 0 {
+				b0 := rng.Int63n(d.size())
+				do(Op{Ev: "Unmap", S0: b0 * rawfs.SPB, N: (1 + rng.Int63n(d.size()-b0)) * rawfs.SPB})
+			} else {
+				d.nw++
+				do(Op{Ev: "Write", S0: 0, N: d.size() * rawfs.SPB, V: 1 + (d.nw-1)%250})
+			}
+			do(d.genRead(true))
+		}
 	}
 	do(Op{Ev: "Close"})
+	do(Op{Ev: "Open"})
+	do(d.genRead(true))
+}
+
+// runRebuild: the replica's side of a rebuild.  A replica with some history is reopened
+// without preload and put in WO; the controller's add-snapshot is taken; while the sync
+// agent rewrites the snapshot files with the healthy replica's (another chain: other
+// names, contents and flags, ending in the add-snapshot) writes and unmaps keep arriving;
+// then reload without preload, UpdateLUNMap (in one piece, or with I/O between its two
+// locked sections), promotion, and ordinary life afterwards.
+func (d *drv) runRebuild(do func(Op)) {
+	rng := d.rng
+	// history of the stale replica
+	for i, n := 0, 1+rng.Intn(3); i < n; i++ {
+		do(d.genWrite(rng.Intn(2) == 0))
+		do(d.genWrite(false))
+		d.snapCtr++
+		do(Op{Ev: "Snapshot", Name: fmt.Sprintf("o%d", d.snapCtr), User: rng.Intn(3) == 0})
+	}
+	do(d.genWrite(false))
+	if rng.Intn(2) == 0 { // the stale replica had got ahead (its counter has more digits than the source's)
+		do(Op{Ev: "SetRev", C: []int64{11, 38, 104}[rng.Intn(3)]})
+	}
+	do(Op{Ev: "Close"})
+	do(Op{Ev: "SetPreload", P: false})
+	do(Op{Ev: "Open"})
+	do(Op{Ev: "SetPunch", P: false})
+	do(Op{Ev: "SetMode", Mode: "WO"})
+	d.snapCtr++
+	add := fmt.Sprintf("add%d", d.snapCtr)
+	do(Op{Ev: "Snapshot", Name: add, User: false})
+	do(Op{Ev: "SetRebuilding", R: true})
+	wo := func() {
+		for rng.Intn(2) == 0 {
+			switch rng.Intn(5) {
+			case 0:
+				ns := d.size() * rawfs.SPB
+				s0 := rng.Int63n(ns)
+				do(Op{Ev: "Unmap", S0: s0, N: 1 + rng.Int63n(min64(ns-s0, 12))})
+			default:
+				do(d.genWrite(rng.Intn(3) == 0))
+			}
+		}
+	}
+	// the healthy replica's chain: some of the old names, some new ones, the add-snapshot last
+	old := d.snaps() // base .. add
+	var src []string
+	for _, n := range old[:len(old)-1] {
+		if rng.Intn(2) == 0 {
+			src = append(src, n)
+		}
+	}
+	for i, n := 0, rng.Intn(3); i < n; i++ {
+		d.snapCtr++
+		src = append(src, fmt.Sprintf("s-n%d", d.snapCtr))
+	}
+	rng.Shuffle(len(src), func(i, j int) { src[i], src[j] = src[j], src[i] })
+	src = append(src, "s-"+add)
+	nb := int(d.size())
+	parent := ""
+	for i, n := range src {
+		blocks := make([]int, nb)
+		for b := range blocks {
+			if rng.Intn(5) < 2 {
+				blocks[b] = 150 + (i*7+b)%90
+			}
+		}
+		wo()
+		do(Op{Ev: "SyncFile", Name: n, Parent: parent, User: rng.Intn(3) == 0, Blocks: blocks})
+		parent = n
+	}
+	wo()
+	do(Op{Ev: "Reload"})
+	if rng.Intn(2) == 0 {
+		do(Op{Ev: "UpdateLUNMap"})
+	} else {
+		do(Op{Ev: "LunMapScan"})
+		wo()
+		if rng.Intn(3) == 0 {
+			do(d.genRead(false))
+		}
+		do(Op{Ev: "LunMapMerge"})
+	}
+	do(Op{Ev: "SetPreload", P: true})
+	do(Op{Ev: "SetMode", Mode: "RW"})
+	// the source's counter: more, as many or fewer digits than the stale replica's own
+	do(Op{Ev: "SetRev", C: []int64{3, 7, 12, 45, 120}[rng.Intn(5)]})
+	do(Op{Ev: "SetRebuilding", R: false})
+	do(d.genRead(true))
+	for i, n := 0, 2+rng.Intn(5); i < n; i++ {
+		switch rng.Intn(6) {
+		case 0:
+			d.snapCtr++
+			do(Op{Ev: "Snapshot", Name: fmt.Sprintf("p%d", d.snapCtr), User: rng.Intn(2) == 0})
+		case 1:
+			do(d.genRead(false))
+		default:
+			do(d.genWrite(rng.Intn(2) == 0))
+		}
+	}
+	do(d.genRead(true))
+	do(Op{Ev: "Close"})
+	do(Op{Ev: "SetPreload", P: rng.Intn(2) == 0})
 	do(Op{Ev: "Open"})
 	do(d.genRead(true))
 }
